@@ -2,6 +2,7 @@
 //!
 //! Case grammar (abstract, the file itself is produced by the Lean `Spec.Tex.encode`):
 //!   `tex <attribute> <format code> <width> <height> <depth> <mips> <64 bytes hex offsets> <payload hex>`
+//!   `mut <seed> <k> tex …` — the same case with `k` bytes of the encoded file damaged by the Lean driver
 //! Run input: `tex <file hex>`; answer `<w> <h> <d> <2d|3d> <rgba hex>` | `none` | `panic:<site>`.
 #![allow(unused)]
 use crate::util::*;
@@ -324,6 +325,44 @@ pub fn generate(thorough: bool, seed: u64, out: &mut dyn Write) {
             let p = rng.bytes(8);
             emit(out, attr(&mut rng), fmt, w, h, d, 1, &std_offs, &p);
         }
+    }
+
+    // ---- (6) family `mut`: `mut <seed> <k> <ordinary tex case>` — the driver damages k = 1..3 bytes of
+    // the encoded file (header + payload) and answers with the model of the code on the damaged file.
+    // Small textures (the 80-byte header is a good share of the file), often with spare payload behind
+    // the first surface so that a grown width / height / depth or another block size still decodes.
+    // An independent stream: the older families keep their cases.
+    let mut rng = Rng::new(seed, "C13-mut");
+    let n = if thorough { 40_000 } else { 400 };
+    for _ in 0..n {
+        let fmt = *rng.pick(&FORMATS);
+        let (w, h, d) = match rng.below(8) {
+            0 | 1 => {
+                let d = rng.range(2, 4) as usize;
+                let h = if fmt == BGRA && rng.chance(1, 2) { dim(&mut rng, 12) } else { 4 * rng.range(1, 3) as usize };
+                (dim(&mut rng, 12), h, d)
+            }
+            2 => (rng.range(1, 64) as usize, rng.range(1, 5) as usize, 1),
+            3 => (rng.range(1, 5) as usize, rng.range(1, 64) as usize, 1),
+            _ => (dim(&mut rng, 24), dim(&mut rng, 24), 1),
+        };
+        let in_class = fmt == BC3 && rng.chance(1, 4);
+        let mut p = payload(fmt, w, h, d, &mut rng, in_class);
+        match rng.below(4) {
+            0 => {}
+            1 => {
+                let extra = rng.range(1, 64) as usize;
+                p.extend(rng.bytes(extra))
+            }
+            _ => {
+                let extra = rng.range(1, 2 * needed(fmt, w, h, d) as u64 + 16) as usize;
+                p.extend(rng.bytes(extra))
+            }
+        }
+        let offs = offsets(&mut rng);
+        let mips = match rng.below(3) { 0 => 1, 1 => rng.range(0, 12) as u16, _ => rng.next() as u16 };
+        write!(out, "mut {} {} ", rng.next() >> 1, rng.range(1, 3)).unwrap();
+        emit(out, attr(&mut rng), fmt, w, h, d, mips, &offs, &p);
     }
 }
 
